@@ -110,15 +110,15 @@ _A = ["execCall", "execAsyncCall"]
 _E = ["eventCall", "smSend"]
 SRC_TIE = {
     "C07": ["eventCall", "reservedNames", "injectedNames", "bindExpected", "callableMethod", "engBase"],
-    "C16": ["engBase", "factory"],
-    "C13": _E + ["allowedEvents", "decl"],
-    "C15": ["decl", "factory"],
-    "C18": ["diagram"],
-    "C10": ["store", "smInit"],
+    "C16": ["engBase", "factory"] + ["surface"],
+    "C13": _E + ["allowedEvents", "decl"] + ["surface"],
+    "C15": ["decl", "factory"] + ["surface"],
+    "C18": ["diagram"] + ["surface"],
+    "C10": ["store", "smInit"] + ["surface"],
     "C12": ["smInit", "registerCallbacks", "addListener", "registry", "specs"],
-    "C17": ["getState", "setState", "registerCallbacks", "addListener"],
+    "C17": ["getState", "setState", "registerCallbacks", "addListener"] + ["surface"],
     "C09": ["visitConnected", "classCheck", "metaInit", "transitionInit", "decl"],
-    "C01": ["triggerSync", "triggerAsync"] + _W + _G + ["decl"],
+    "C01": ["triggerSync", "triggerAsync"] + _W + _G + ["decl"] + ["surface"],
     "C02": ["activateSync", "activateAsync"] + _W + _A + ["registry", "registerCallbacks", "addListener", "decl", "specs"],
     "C03": ["processSync", "processAsync"] + _E + ["engBase"],
     "C04": ["activateSync", "activateAsync", "processSync", "processAsync"] + _A,
@@ -133,11 +133,11 @@ TIE_MOD = "SMV.Src.Tie"
 TIE_MODS = ["SMV.Src.Tie", "SMV.Src.TieExpr"]
 # further tie modules, built and audited only for the properties whose index names their theorems
 TIE_EXTRA = {"C07": ["SMV.Src.TieBind", "SMV.Src.TieEng"], "C03": ["SMV.Src.TieEng"], "C06": ["SMV.Src.TieEng"],
-             "C16": ["SMV.Src.TieEng", "SMV.Src.TieFactory"], "C09": ["SMV.Src.TieCheck", "SMV.Src.TieDecl"], "C01": ["SMV.Src.TieDecl"],
-             "C15": ["SMV.Src.TieDecl", "SMV.Src.TieFactory"], "C18": ["SMV.Src.TieDiagram"], "C10": ["SMV.Src.TieStore"],
+             "C16": ["SMV.Src.TieEng", "SMV.Src.TieFactory", "SMV.Src.TieSurface"], "C09": ["SMV.Src.TieCheck", "SMV.Src.TieDecl"], "C01": ["SMV.Src.TieDecl", "SMV.Src.TieSurface"],
+             "C15": ["SMV.Src.TieDecl", "SMV.Src.TieFactory", "SMV.Src.TieSurface"], "C18": ["SMV.Src.TieDiagram", "SMV.Src.TieSurface"], "C10": ["SMV.Src.TieStore", "SMV.Src.TieSurface"],
              "C11": ["SMV.Src.TieStore", "SMV.Src.TieEng"], "C12": ["SMV.Src.TieStore", "SMV.Src.TieReg", "SMV.Src.TieSpec"], "C02": ["SMV.Src.TieReg", "SMV.Src.TieStore", "SMV.Src.TieDecl", "SMV.Src.TieSpec"],
-             "C14": ["SMV.Src.TieStore", "SMV.Src.TieSpec"], "C08": ["SMV.Src.TieSpec"], "C13": ["SMV.Src.TieStore", "SMV.Src.TieDecl"],
-             "C17": ["SMV.Src.TieStore"]}
+             "C14": ["SMV.Src.TieStore", "SMV.Src.TieSpec"], "C08": ["SMV.Src.TieSpec"], "C13": ["SMV.Src.TieStore", "SMV.Src.TieDecl", "SMV.Src.TieSurface"],
+             "C17": ["SMV.Src.TieStore", "SMV.Src.TieSurface"]}
 
 
 def source_tie(ctx: Ctx):
